@@ -819,6 +819,13 @@ func checkC12(c *Check) {
 
 	// ---- R7
 	refile(c, "C12.R7", func() { c10R3(c, sr) })
+	// both stores enforce the limits they were constructed with: each constructor stores each parameter, as it is, in the
+	// field of the same role (C10.R4) — a constructor that "normalises" one limit by the other disagrees with its sibling
+	if c.ID == "C12" {
+		importObls(c, "C10", checkC10, "C12.R7", func(o *Obligation) bool {
+			return strings.HasPrefix(o.Key, "C10.R4/ctor-field/") || strings.HasPrefix(o.Key, "C10.R4/timeout-written-outside-constructor")
+		})
+	}
 	// ---- R5
 	c10R2(c, sr)
 	for _, o := range c.Obls {
